@@ -192,11 +192,69 @@ const COMMENTS: [&str; 10] = [
     " 0x1_ |: &&",
 ];
 
+/// Systematic layouts (dimension audit): SPECIAL + 0: nothing between two tokens unless they would glue, nothing before the
+/// first token, NOTHING after the last one (the file ends with the last token of the last production, without an end of
+/// line); SPECIAL + 1: a `//` comment in EVERY gap between two tokens, before the first token and after the last one, where
+/// the file ends inside the comment; SPECIAL + 2: an end of line in every gap, trailing white space at the end of the file.
+pub const SPECIAL: u64 = 100;
+pub const N_SPECIAL: u64 = 3;
+
+fn render_special(sp: &[String], which: u64) -> String {
+    let mut out = String::new();
+    let comment = |out: &mut String, i: usize, newline: bool| {
+        // `/` directly followed by `//` would turn the division sign into the start of the comment
+        if out.ends_with('/') || i % 3 == 1 {
+            out.push(' ');
+        }
+        out.push_str("//");
+        out.push_str(COMMENTS[i % COMMENTS.len()]);
+        if newline {
+            out.push('\n');
+        }
+    };
+    if which == 1 {
+        comment(&mut out, 0, true);
+    }
+    for (i, s) in sp.iter().enumerate() {
+        if i > 0 {
+            match which {
+                0 => {
+                    if must_separate(&sp[i - 1], s) {
+                        out.push(' ');
+                    }
+                }
+                1 => comment(&mut out, i, true),
+                _ => {
+                    out.push('\n');
+                    for _ in 0..(i % 3) {
+                        out.push('\t');
+                    }
+                }
+            }
+        }
+        out.push_str(s);
+    }
+    match which {
+        // (a module without declarations: a file of zero bytes is not Penne, docs/errors.md E101)
+        0 => {
+            if sp.is_empty() {
+                out.push(' ');
+            }
+        }
+        1 => comment(&mut out, sp.len() + 1, false),
+        _ => out.push_str(" \n\n\t "),
+    }
+    out
+}
+
 /// layout 0 is the plain one (single spaces, one declaration-ish chunk per line is not attempted);
 /// `density` in percent steers how often nothing / a newline / a comment is chosen.
 pub fn render(tokens: &[Value], seed: u64, stream: u64, layout: u64) -> Result<String, String> {
     let mut rng = Rng::new(seed ^ 0x6772616d, stream.wrapping_mul(1315423911).wrapping_add(layout));
     let sp: Vec<String> = tokens.iter().map(spelling).collect::<Result<_, _>>()?;
+    if layout >= SPECIAL {
+        return Ok(render_special(&sp, (layout - SPECIAL) % N_SPECIAL));
+    }
     let mut out = String::new();
     let style = if layout == 0 { 0 } else { 1 + rng.below(4) };
     let sep = |rng: &mut Rng, out: &mut String, must: bool, edge: bool| {
